@@ -356,20 +356,31 @@ func c11BatchAndParams(c *Ctx) {
 						}
 					}
 					c.check(ok, "batch-every-entry", "handleBatchRequest pool task", p.Pos(fnPos(task)), "handleRequest dominates every return of the task", "a batch entry's task can finish without calling handleRequest: the entry gets no response and its handler never runs (e.g. entries still queued when the shared deadline expires)")
-					// a non-nil response is always added
-					if ar := findSite(task, "addResponse"); ar == nil {
-						// addResponse is a closure variable: look for the dynamic call
-						found := false
-						for _, t := range sitesOf(task) {
-							if t.CalleeName() == "dynamic" && strings.Contains(term(t.Instr.Common().Value), "addResponse") {
-								found = true
-								okd, miss := everyDisjunctHas(p.mustHoldAt(t.Instr), []string{"!= nil)"})
-								_ = okd
-								_ = miss
+					// the response returned by handleRequest is handed on (to the collecting closure / method) by the task
+					found := false
+					if hr != nil {
+						if hv, isVal := hr.Instr.(ssa.Value); isVal {
+							var resp ssa.Value
+							if refs := hv.Referrers(); refs != nil {
+								for _, r := range *refs {
+									if ex, isEx := r.(*ssa.Extract); isEx && ex.Index == 0 {
+										resp = ex
+									}
+								}
+							}
+							for _, t := range sitesOf(task) {
+								if t.Instr == hr.Instr || resp == nil {
+									continue
+								}
+								for _, a := range t.Args() {
+									if flowsFrom(a, resp, 0) {
+										found = true
+									}
+								}
 							}
 						}
-						c.check(found, "batch-every-entry", "handleBatchRequest pool task adds its response", p.Pos(fnPos(task)), "the task hands its response to addResponse", "the task no longer adds its response to the batch result")
 					}
+					c.check(found, "batch-every-entry", "handleBatchRequest pool task adds its response", p.Pos(fnPos(task)), "the task hands the response of handleRequest on to the batch collector", "the task no longer adds its response to the batch result")
 				}
 			}
 		}
